@@ -12,6 +12,10 @@ pub(crate) fn polling_state_with(v: u8) -> PollingState {
     PollingState(AtomicU8::new(v))
 }
 
+pub(crate) fn sq_from(subs: sys::Submissions) -> SubmissionQueue {
+    SubmissionQueue(subs)
+}
+
 // =========================================================================================
 // C11  c11.polling_state — the two-flag handshake word: set_polling is exactly `swap`, wake is exactly
 //      `fetch_or(AWOKEN)`, with the stated return predicates, from every reachable state.
